@@ -164,6 +164,20 @@ PROPS = {
                        "lies inside the right statement for a given input; errors inside imported files.",
         "assumptions": ["abortable_parser's line()/column() count from the start of the input"],
     },
+    "C01": {
+        "module": "c01",
+        "explanation": "Structural necessary conditions of compiled = definitional evaluation, each decided on every arm / handler: "
+                       "R1 composes the push order of the translator (which AST side is translated when, per operator arm) with the "
+                       "pop order and operand use of the VM handler (provenance from each pop to the slots of the machine operation) "
+                       "against a 14-row semantic table; R1h the argument order of the map/filter/reduce callbacks, calls and format "
+                       "placeholders; R2 opcode -> handler -> machine operation (exhaustive over the dispatch); R3 a linear-form "
+                       "evaluation of every jump patch (idx = len_a - 1, offset = len_b - len_a) plus jump arithmetic and short-circuit "
+                       "polarity in the VM; R4 exhaustive translation; R84 range bounds; R85 the `is` type-name table against the "
+                       "reference. Not decided: values computed by arbitrary programs (that needs an independent evaluator, a dynamic "
+                       "oracle).",
+        "assumptions": ["the semantic table (left - right, text ~ pattern, item in container, container . key) is the reference's"],
+        "technique": "static analysis: provenance composition translator/VM over MIR, linear forms for jump offsets, table agreement",
+    },
 }
 
 
